@@ -125,6 +125,10 @@ def bounded(repo, tier, seed):
                              input=dict(scores=list(case[0]), unpaired_mask=case[1], minScore=case[2], breakSegmentThreshold=case[3]),
                              observed=bad, required='C13 statement'))
     viol.sort(key=lambda v: len(v['input']['scores']))
+    uniq = {}
+    for v in viol:
+        uniq.setdefault(v['key'], v)
+    viol = list(uniq.values())
     return result(ev, nt, f"all score sequences of length 0..{max_len} over {ALPHABET} x {len(THRESHOLDS)} (minScore, breakSegmentThreshold) pairs "
                           f"hitting the threshold equalities, plus random longer sequences; non-trivial = at least one non-empty segment returned",
                   [dict(scores=list(c[0]), minScore=c[2], breakSegmentThreshold=c[3]) for c in allc[5000:5003]],
